@@ -363,26 +363,40 @@ def gen_sched_case(rng, idx):
     progs = []
     blocking = False
     if style >= 6:
-        # balanced, no close: blocking puts and blocking takes in equal number - terminates on a correct queue whatever the
-        # schedule, and ONLY if no wake-up between put and take is lost (close() cannot come to the rescue)
-        np_ = rng.range(1, nw - 1) if nw > 2 else 1
-        puts = [rng.range(1, 4) for _ in range(np_)]
-        total = sum(puts)
-        nc = nw - np_
-        takes = [0] * nc
+        # balanced, no close: terminates on a correct queue whatever the schedule, and ONLY if no wake-up between put and take is lost
+        # (close() cannot come to the rescue).  Consumers are blocking `d` and - every other case - also timed `e` takes: with
+        # N = #d + #e puts and #e <= maxSize, every `d` eventually gets an item even if every `e` times out empty-handed, and no
+        # producer stays blocked (at most #e items are left over).  A `d` that sleeps next to an `e` depends on wake-ups being
+        # passed on correctly (seeded change C10-c).
+        cap = rng.choice([2, 2, 3])
+        mixed = style == 7
+        nd = rng.range(1, 3)
+        ne = rng.range(1, min(cap, 2)) if mixed else 0
+        total = nd + ne
+        ncons = rng.range(1, min(3, nd + ne)) if not mixed else rng.range(2, min(3, nd + ne))
+        takes = [[] for _ in range(ncons)]
+        kinds = ["d"] * nd + ["e"] * ne
+        rng.shuffle(kinds)
+        for i, k in enumerate(kinds):
+            takes[i % ncons].append(k)
+        np_ = rng.range(1, 2)
+        puts = [0] * np_
         for _ in range(total):
-            takes[rng.below(nc)] += 1
-        progs = [["q0"] * k for k in puts] + [["d"] * k for k in takes]
+            puts[rng.below(np_)] += 1
+        progs = [["q0"] * k for k in puts if k] + [t for t in takes if t]
         for p in progs:
-            if rng.chance(1, 3):
+            if rng.chance(1, 4):
                 p.insert(rng.below(len(p) + 1), "s")
-        rng.shuffle(progs)
+        if rng.chance(1, 2):
+            rng.shuffle(progs)
+        else:
+            progs = progs[::-1]     # consumers first: they tend to park before the puts arrive
         for t, p in enumerate(progs, 1):
             for i, call in enumerate(p):
                 if call[0] == "q":
                     p[i] = "q%d" % (t * 100 + i)
         return {"cat": "bq-sched", "cap": cap, "progs": progs, "seed": rng.next() % (2 ** 32),
-                "timeoutOneIn": 8, "spuriousOneIn": rng.choice([0, 0, 20])}
+                "timeoutOneIn": rng.choice([8, 0, 0, 30]), "spuriousOneIn": rng.choice([0, 0, 20])}
     for w in range(1, nw + 1):
         n = rng.range(1, 5)
         if style == 0:      # producers / consumers
@@ -437,11 +451,11 @@ def sched_line(c):
 
 def parse_sched_out(line):
     parts = line.split(" | ")
-    if len(parts) != 4:
+    if len(parts) != 5:
         return None
-    status, evs, rets, choices = parts
+    status, evs, rets, choices, stuck = parts
     return {"status": status, "events": [] if evs == "-" else evs.split(" "), "rets": rets.split("/"),
-            "choices": [int(x) for x in choices.split(",")] if choices else []}
+            "choices": [int(x) for x in choices.split(",")] if choices else [], "stuck": [] if stuck == "-" else stuck.split(",")}
 
 
 def model_schedule(events):
@@ -479,6 +493,16 @@ def sched_monitor(c, res):
         bad.append("Q4: the run does not terminate within the step limit (live-lock)")
         return bad
     if st == "diverged":
+        return bad
+    # Q4 without an eternal sleeper: a FORCED time-out (DetSched fires it only when NO thread is enabled) of a sleeper whose wait
+    # predicate already holds (queue non-empty resp. not full, or closed) = a caller that stayed blocked while its condition held; the
+    # timed wait merely papers over the lost wake-up.  Cannot fire on a correct queue: the state in which a time-out is forced is a
+    # dead-locked state of the monitor model (no thread can run), where every sleeper's predicate is false (Iora.C10.Q4_no_lost_wakeup);
+    # more generally a sleeper whose predicate holds always has a wake-up in the pipeline, i.e. an enabled or soon-enabled thread
+    # (Iora.C10.Q4_wakeup_pending_in_every_state), so the runnable set is not empty.
+    if res.get("stuck"):
+        bad.append("Q4: a caller stays blocked while its condition holds (only a forced time-out releases it; lost wake-up): %s; rets=%s"
+                   % (" ".join(res["stuck"]), "/".join(res["rets"])))
         return bad
     # capacity and flag at every scheduling point
     prev_closed = 0
@@ -672,6 +696,9 @@ EXPLORE = [
     # "the queue was not empty/full" strands the second waiter (seeded change C10-a and its producer-side mirror) - visible with 0 preemptions
     (2, "-/q1,q2/d/d", 1, 2), (2, "-/q1/q2/d/d", 0, 1), (3, "-/q1,q2,q3/d/d/d", 0, 0), (2, "-/q1,q2,c/d/d", 0, 1),
     (2, "-/t1,t2/q3/q4/d,d", 0, 1), (2, "-/t1,t2,d,d/q3/q4", 1, 2), (2, "-/e/e/q1,q2", 0, 1),
+    # MIXED waiters (timed + untimed) on one condition variable, no closer, maxSize >= 2: a wake-up that lands on the timed waiter must
+    # still reach the other one (seeded change C10-c: edge-triggered notify, cascade only in the untimed dequeue)
+    (2, "-/e/d/q1,q2", 0, 1), (2, "-/d/e/q1,q2", 0, 1), (2, "-/e/d/q1/q2", 0, 1), (3, "-/e/d/d/q1,q2,q3", 0, 0),
 ]
 
 
@@ -706,7 +733,7 @@ def run_explore(ctx, hb, quick, dist):
             why, _, ch = m.group(9).partition("@")
             ops = ["bq sched %d %s ch:%s 8 0" % (cap, progs, ch)]
             ctx.violation("property", "%s: %d of the %d enumerated schedules (%s) of the program `%s` (maxSize %d) violate the property on the real class; first: %s"
-                          % ("Q3/Q4" if dl else "Q1/Q2", bad, n, "all schedules" if k is None else "at most %d preemptions" % k, progs, cap, why.replace("_", " ")),
+                          % ("Q3/Q4" if (dl or why.startswith("blocked")) else "Q1/Q2", bad, n, "all schedules" if k is None else "at most %d preemptions" % k, progs, cap, why.replace("_", " ")),
                           {"ops": ops, "program": [[] if p == "-" else p.split(",") for p in progs.split("/")[1:]], "maxSize": cap,
                            "schedule_choices": [int(x) for x in ch.split(",")] if ch else [], "observed": [l], "enumeration": line},
                           found_input=True, cls="property:enumeration")
